@@ -95,12 +95,14 @@ where
     T: Number,
     usize: Cast<T>,
 {
-    let len = b - a;
-    let steps = (len / step).ceil();
+    // number of terms a + k * step lying strictly before b in the direction of step;
+    // computed in f64 so that integer spans are not truncated and unsigned spans cannot underflow
+    let steps = ((b.f64() - a.f64()) / step.f64()).ceil();
+    let len = if steps > 0. { steps as usize } else { 0 };
     Linspace {
         start: a,
         step,
-        len: steps.cast(),
+        len,
         index: 0,
     }
 }
